@@ -12,9 +12,10 @@ NP = {'f4': 'float32', 'f8': 'float64'}
 CODE = {'f4': 'RepresentationCode.FSINGL', 'f8': 'RepresentationCode.FDOUBL'}
 INDEX = {'A': np.array([1000, 1001, 1002, 1003, 1004, 1005], dtype='float64'),
          'N': np.array([1.0, 2.0, 3.0, float('nan'), 5.0, 6.0]),
-         'B': np.array([20, 21, 22, 23, 24, 25], dtype='float64')}
+         'B': np.array([20, 21, 22, 23, 24, 25], dtype='float64'),
+         'V': np.array([100, 101, 103, 106, 110, 115], dtype='float64')}
 BOUNDS = {('A', 'all'): (1000.0, 1005.0), ('A', 'win'): (1002.0, 1004.0), ('B', 'all'): (20.0, 25.0), ('B', 'win'): (22.0, 24.0),
-          ('N', 'all'): (float('nan'),) * 2, ('N', 'win'): (float('nan'),) * 2, ('U', 'all'): (0.0, 9999.0)}
+          ('V', 'all'): (100.0, 115.0), ('V', 'win'): (103.0, 110.0), ('N', 'all'): (float('nan'),) * 2, ('N', 'win'): (float('nan'),) * 2, ('U', 'all'): (0.0, 9999.0)}
 PAYLOAD = {'P0': bytes(range(40, 60)), 'P1': bytes(range(90, 97)) * 40}
 VALS = {('int', '1'): I(1), ('float', '1'): F(1.0), ('bool', '1'): BOOL(True), ('str', '1'): S('1'),
         ('int', '0'): I(0), ('float', '0'): F(0.0), ('float', 'nz'): F(-0.0)}
